@@ -105,21 +105,26 @@ SegWB(a, g, s) == CASE g.k = "L" -> IF OnSeg(a, g.p, s) THEN <<0, 1>> ELSE <<Edg
                     [] g.k = "Q" -> QuadWB(a, g, s)
                     [] g.k = "C" -> CubWB(a, g, s)
 
-\* winding of one contour (implicitly closed) around s:  <<w, flag>>, flag as above (1 wins over 2);
-\* the implicit closing edge of an open contour is not part of the boundary: a point on it is undecided.
+\* winding of one contour around s:  <<w, flag>>, flag as above (1 wins over 2).  With implicit = TRUE an open contour
+\* is closed by the straight edge back to its start (the winding number of the statement); that edge is not part
+\* of the boundary: a point on it is undecided.  With implicit = FALSE only the drawn segments are counted (the
+\* "as if not closed" value used to recognise a library that does not close open contours).
 RECURSIVE CtrWB_(_, _, _)
 CtrWB_(c, s, i) == IF i = 0 THEN <<0, 0>>
                    ELSE LET r == SegWB(SegStart(c, i), c.segs[i], s) t == CtrWB_(c, s, i - 1)
                         IN <<r[1] + t[1], IF r[2] = 1 \/ t[2] = 1 THEN 1 ELSE MaxI(r[2], t[2])>>
-CtrWB(c, s) == LET r == CtrWB_(c, s, Len(c.segs)) e == EndPt(c) IN
-               IF e = c.s THEN r
+CtrWBi(c, s, implicit) ==
+               LET r == CtrWB_(c, s, Len(c.segs)) e == EndPt(c) IN
+               IF e = c.s \/ (~c.cl /\ ~implicit) THEN r
                ELSE IF r[2] # 1 /\ OnSeg(e, c.s, s) THEN <<0, IF c.cl THEN 1 ELSE 2>>
                ELSE <<r[1] + EdgeW(e, c.s, s), r[2]>>
-RECURSIVE PathWB_(_, _, _)
-PathWB_(p, s, j) == IF j = 0 THEN <<0, 0>>
-                    ELSE LET r == CtrWB(p[j], s) t == PathWB_(p, s, j - 1)
+CtrWB(c, s) == CtrWBi(c, s, TRUE)
+RECURSIVE PathWB_(_, _, _, _)
+PathWB_(p, s, j, implicit) == IF j = 0 THEN <<0, 0>>
+                    ELSE LET r == CtrWBi(p[j], s, implicit) t == PathWB_(p, s, j - 1, implicit)
                          IN <<r[1] + t[1], IF r[2] = 1 \/ t[2] = 1 THEN 1 ELSE MaxI(r[2], t[2])>>
-PathWB(p, s) == PathWB_(p, s, Len(p))
+PathWB(p, s) == PathWB_(p, s, Len(p), TRUE)
+PathWBdrawn(p, s) == PathWB_(p, s, Len(p), FALSE)
 
 \* ---- vertices and edges of a contour ------------------------------------------------------------------
 CtrVerts(c) == {c.s} \cup {c.segs[i].p : i \in 1..Len(c.segs)}
@@ -130,10 +135,11 @@ CtrLines(c) == {<<SegStart(c, i), c.segs[i].p>> : i \in {j \in 1..Len(c.segs) : 
 PathLines(p) == UNION {CtrLines(p[j]) : j \in 1..Len(p)}
 
 \* ---- well-formedness of a generated scenario ----------------------------------------------------------
-SegOK(a, g) == CASE g.k = "L" -> a # g.p
+SegOK(a, g) == CASE g.k = "L" -> TRUE
                  [] g.k = "A" -> ArcOK(a, g)
                  [] g.k = "Q" -> Cross(a, g.c1, g.p) # 0
                  [] g.k = "C" -> ~(Cross(a, g.c1, g.p) = 0 /\ Cross(a, g.c2, g.p) = 0)
-CtrOK(c) == \A i \in 1..Len(c.segs) : SegOK(SegStart(c, i), c.segs[i])
+CtrOK(c) == /\ \A i \in 1..Len(c.segs) : SegOK(SegStart(c, i), c.segs[i])
+            /\ \E i \in 1..Len(c.segs) : c.segs[i].p # c.s \/ c.segs[i].k # "L"       \* not a single point
 PathOK(p) == \A j \in 1..Len(p) : CtrOK(p[j])
 =============================================================================
